@@ -369,23 +369,28 @@ def w_overwrite(ctx, rng, i):
     import menpo.io as mio
     import menpo.shape as ms
     import menpo.image as mi
-    which = i % 5
+    which = i % 6
     exporter, ext, mk = [
         (mio.export_landmark_file, ".ljson", lambda: gen.shape(rng, "LabelledPointUndirectedGraph", d=2)),
         (mio.export_landmark_file, ".pts", lambda: ms.PointCloud(gen.points(rng, 5, 2))),
         (mio.export_pickle, ".pkl", lambda: gen.shape(rng, None, d=2)),
         (mio.export_pickle, ".pkl.gz", lambda: gen.shape(rng, None, d=3)),
         (mio.export_image, ".png", lambda: mi.Image(rng.random((3, 5, 6)))),
+        (mio.export_video, [".avi", ".mp4", ".gif"][(i // 6) % 3], lambda: [mi.Image(rng.random((3, 8, 8))) for _ in range(3)]),
     ][which]
+    video = which == 5          # no encoder here: only the refusal to touch an existing file is driven (it comes before any encoding)
     shape_of_history = []
     with Sandbox() as sb:
         name = "out" + ext if (i // 5) % 2 == 0 else NAMES[rng.integers(0, len(NAMES))] + ext       # a fixed name recurs across cases and directories
         for step in range(int(rng.integers(2, 9))):
             arg, ab, sp = sb.spell(rng, name, expanding=which in (2, 3))
             ow = [None, False, True][rng.integers(0, 3)]
+            if video:
+                ow = [None, False][rng.integers(0, 2)]
             existed = os.path.exists(ab)
-            if step == 0 and rng.random() < 0.5:
-                Path(ab).write_bytes(b"SENTINEL not a real file")
+            if (step == 0 and rng.random() < 0.5) or (video and not existed):
+                # (also an empty file - a placeholder, a lock, the leftover of an interrupted run - is an existing file)
+                Path(ab).write_bytes(b"SENTINEL not a real file" if rng.random() < 0.6 else b"")
                 existed = True
             watched_export(ctx, exporter, mk(), arg, ab, ow, (ext, sp))
             shape_of_history.append("%s:%s:%s" % (sp, ow, "exists" if existed else "new"))
